@@ -1,9 +1,11 @@
 package props
 
 import (
+	"net/http"
 	"time"
 
 	"verifharness/verif"
+	"verifharness/world"
 
 	"github.com/pquerna/otp/totp"
 	"github.com/volatiletech/authboss/v3"
@@ -25,7 +27,18 @@ func init() {
 func C04_EveryPathCounts() {
 	verif.ReplayInInterpreter()
 	o := fullOpts()
-	f := newFlow(o)
+	// an application hook registered before the modules (it runs first) that may answer a
+	// completed login itself: the other After(EventAuth) handlers still do their bookkeeping
+	hook := verif.Choice("early-app-hook", 2) == 1
+	f := newFlowWith(o, func(w *world.World) {
+		w.AB.Events.After(authboss.EventAuth, func(wr http.ResponseWriter, r *http.Request, handled bool) (bool, error) {
+			if hook {
+				wr.WriteHeader(200)
+				return true, nil
+			}
+			return false, nil
+		})
+	})
 	routes := []string{"POST /login", "POST /otp/login", "POST /2fa/totp/validate", "POST /2fa/sms/validate"}
 	route := routes[verif.Choice("route", len(routes))]
 	v := symbolicValues()
